@@ -294,7 +294,7 @@ theorem evalPartial_identity_dname (st0 : St) (n : Node) (v : Nat) (x o : Name)
   unfold evalPartial
   rw [hl]
   simp only [runEvaluator, evIdentity, hin, hout]
-  rfl
+  split <;> rfl
 
 /-- **The node loop never errs on fragment A** when the outputs of the pending nodes are pairwise distinct, carry their own
 names, and are not registered initializer names. -/
